@@ -87,11 +87,11 @@ func jsonByID(id int) func(errdef.Error) ([]byte, error) {
 
 // world is the interpreter state against the real library.
 type world struct {
-	pool  []gval
-	defs  []errdef.Factory
-	ctxs  []context.Context
-	errs  []error
-	coq   []string // printed statements
+	pool       []gval
+	defs       []errdef.Factory
+	ctxs       []context.Context
+	errs       []error
+	coq        []string // printed statements
 	nfreshDefs int
 	// bookkeeping for specifications computed on the Go side
 	defOrigin []int // Define statement index each factory descends from
